@@ -114,7 +114,12 @@ func (r *RouteParam) Write(writer io.Writer) (int, error) {
 		return n, err
 	}
 	for _, param := range r.rrParam {
-		m, err := param.Write(writer)
+		m, err := fmt.Fprintf(writer, ";")
+		n += m
+		if err != nil {
+			return n, err
+		}
+		m, err = param.Write(writer)
 		n += m
 		if err != nil {
 			return n, err
